@@ -26,15 +26,17 @@ func (tokenWrapper) Wrap(t combinator.Token) combinator.Node {
 	case token.IntLit:
 		x, err := strconv.Atoi(realT.Value)
 		if err != nil {
-			panic(err)
+			// the lexer guarantees digits only, so the literal is out of range
+			// for an int; the nearest float stands for it
+			f, _ := strconv.ParseFloat(realT.Value, 64)
+			return node.Float(f)
 		}
 		return node.Int(x)
 
 	case token.FloatLit:
-		x, err := strconv.ParseFloat(realT.Value, 64)
-		if err != nil {
-			panic(err)
-		}
+		// the lexer guarantees the syntax, the only possible error is out of
+		// range, for which ParseFloat returns the infinity of the right sign
+		x, _ := strconv.ParseFloat(realT.Value, 64)
 		return node.Float(x)
 
 	case token.StringLit:
